@@ -88,6 +88,26 @@ Proof.
 Qed.
 Print Assumptions C18_attr_conservation.
 
+(* The full statement of the property's last sentence would be, for EVERY value v (lists, maps and null
+   included) of a routed name:
+     forall qtver eid m pre k v post sl name, s_attrs m = pre ++ (k, v) :: post -> has_key k post = false ->
+       In (sl, (name, k)) spec_routes ->
+       (slot_get ev sl name = Some (sort_keys v) /\ get2 ev k_extra k = None)
+       \/ (get2 ev k_extra k = Some (sort_keys v) /\ slot_get ev sl name = None)
+   It is FALSE of the faithful model (and of the code: open finding F16): QVariant::toString() of a
+   list / map / null is the empty string, and the name is skipped in extra.  Witness: appname = [1, 2]
+   gives tags.app_name = "" and no entry under extra, so the value occurs nowhere in the event and
+   the oracle rejects the model's own output.  [C18_attr_conservation] above is the part that holds
+   (routed names with string / number / boolean values, every other name with any value). *)
+Theorem C18_routed_nonscalar_value_lost_refuted :
+  exists m qtver eid, wf_msg (s_msg m) /\ time_ok (s_time_ms m) /\ units qtver /\ is_hex32 eid = true
+    /\ s_attrs m = [(k_appname, JArr [JNum 1%Z; JNum 2%Z])]
+    /\ slot_get (src_event_members qtver eid m) STag k_app_name = Some (JStr [])
+    /\ get2 (src_event_members qtver eid m) k_extra k_appname = None
+    /\ prop_c18_b m (sentry_format src_sentry_cfg qtver eid m) = false.
+Proof. exact (routed_nonscalar_lost src_sentry_cfg C18_source_configuration_good). Qed.
+Print Assumptions C18_routed_nonscalar_value_lost_refuted.
+
 (* the event id: 32 lowercase hex digits; distinct 128-bit values give distinct ids *)
 Theorem C18_id_hex32 : forall x, is_hex32 (id128_hex x) = true.
 Proof. exact id_hex32. Qed.
@@ -101,6 +121,7 @@ Print Assumptions C18_event_id_carried.
 
 (* the boolean oracle the check evaluates on the implementation's output holds of the model's output *)
 Theorem C18_oracle_holds : forall qtver eid m, units qtver -> units eid -> wf_msg (s_msg m) -> time_ok (s_time_ms m) ->
+  routed_scalar (s_attrs m) = true ->
   is_hex32 eid = true -> prop_c18_b m (sentry_format src_sentry_cfg qtver eid m) = true.
 Proof. exact (sentry_oracle_holds src_sentry_cfg C18_source_configuration_good). Qed.
 Print Assumptions C18_oracle_holds.
@@ -114,6 +135,7 @@ Definition ex_smsg : smsg := {|
   s_time_ms := 1709251199999%Z |}.
 Example C18_nonvacuous :
   iso_utc (s_time_ms ex_smsg) = [50;48;50;52;45;48;50;45;50;57;84;50;51;58;53;57;58;53;57;90]
+  /\ routed_scalar (s_attrs ex_smsg) = true
   /\ prop_c18_b ex_smsg (sentry_format src_sentry_cfg [53] (id128_hex 255) ex_smsg) = true
   /\ slot_get (src_event_members [53] (id128_hex 255) ex_smsg) SDevice k_name = Some (JStr [98; 111; 120])
   /\ get2 (src_event_members [53] (id128_hex 255) ex_smsg) k_extra [117] = Some (JNum 3%Z)
